@@ -100,6 +100,32 @@ Theorem script_constructors_hash : forall (D : Deps) (net : Nets.net) (script : 
   new_leg_sh_script (d_ripemd160 D) (d_P D) net script = Ok (LegSH (sh_id net) (d_ripemd160 D (sha256 script))).
 Proof. intros D net script. apply SpecProofs.script_constructors_hash. Qed.
 
+(* the exported constructors build exactly the values the round-trip theorems are about, and
+   ScriptAddress() of the result is the hash / serialisation that was handed in *)
+Theorem constructors_build : forall (D : Deps) (net : Nets.net) (slp : bool) (h : list N),
+  (length h = 20%nat ->
+     new_pkh (d_P D) net slp h = Ok (PKH (net_prefix net slp) h) /\
+     new_sh (d_P D) net slp h = Ok (SH (net_prefix net slp) h) /\
+     new_leg_pkh (d_P D) (pkh_id net) h = Ok (LegPKH (pkh_id net) h) /\
+     new_leg_sh (d_P D) (sh_id net) h = Ok (LegSH (sh_id net) h)) /\
+  (length h = 32%nat -> new_sh32 (d_P D) net slp h = Ok (SH32 (net_prefix net slp) h)) /\
+  (forall p id, script_address (d_P D) (d_ser D) (PKH p h) = h /\ script_address (d_P D) (d_ser D) (SH p h) = h /\
+                script_address (d_P D) (d_ser D) (SH32 p h) = h /\ script_address (d_P D) (d_ser D) (LegPKH id h) = h /\
+                script_address (d_P D) (d_ser D) (LegSH id h) = h) /\
+  (EC_roundtrip D -> forall fmt pt, fmt = PKFUncompressed \/ fmt = PKFCompressed \/ fmt = PKFHybrid ->
+     new_pubkey (d_P D) (d_parse D) net (d_ser D fmt pt) = Ok (PubKey fmt pt (pkh_id net)) /\
+     script_address (d_P D) (d_ser D) (PubKey fmt pt (pkh_id net)) = d_ser D fmt pt).
+Proof.
+  intros D net slp h. split; [|split; [|split]].
+  - intros Hl. unfold new_pkh, new_sh, new_leg_pkh, new_leg_sh, ripemd160_size. rewrite Hl. cbn. auto.
+  - intros Hl. unfold new_sh32, sha256_size. rewrite Hl. reflexivity.
+  - intros p id. cbn. auto.
+  - intros HE fmt pt Hf. destruct (ec_parse_ser D HE fmt pt Hf) as (Hp & b0 & t & Es & Hb0). split.
+    + rewrite new_pubkey_eq, Hp, Es, Hb0. reflexivity.
+    + unfold script_address, serialize.
+      destruct Hf as [ -> | [ -> | -> ] ]; reflexivity.
+Qed.
+
 (* the six networks of chaincfg as linked: well-formed, SLP prefixes separated from the cash
    prefixes by the checksum, legacy ids registered for exactly one kind *)
 Theorem six_nets_ok :
@@ -196,6 +222,14 @@ Theorem foreign_prefix_rejected : forall (D : Deps) (net : Nets.net) (q rest : l
 Proof.
   intros D net q rest Hw.
   exact (RejectProofs.foreign_prefix_rejected (d_ripemd160 D) (d_P D) (d_parse D) (d_ser D) net _ _ (wf_net_WF net Hw) q rest).
+Qed.
+
+(* for a prefix-qualified string (one containing ':') "not a cash address" means rejected outright *)
+Theorem prefixed_not_cash_rejected : forall (D : Deps) (net : Nets.net) (s : list N), wf_net net = true ->
+  In 58 s -> not_cash D (dec D net s) -> forall a, dec D net s <> Ok a.
+Proof.
+  intros D net s Hw Hin Hnc.
+  exact (RejectProofs.prefixed_not_cash_rejected (d_P D) (d_parse D) net _ _ s Hin Hnc).
 Qed.
 
 (* an SLP-prefixed checksum never verifies under the cash prefix (and conversely): six nets *)
